@@ -574,6 +574,8 @@ class XsdElement(XsdComponent, ParticleMixin,
             url = normalize_url(url, context.source.base_url)
             if self.maps.get_schema(ns, url) is not None:
                 continue
+            elif any(s.maps is not self.maps for s in self.maps.namespaces.get(ns, ())):
+                continue  # a namespace of the meta-schema, that is shared and can't be extended
 
             if ns in iter_schema_namespaces(context.source.root, elem):
                 reason = _("schemaLocation declaration after namespace start")
@@ -1446,6 +1448,8 @@ class Xsd11Element(XsdElement):
             url = normalize_url(url, context.source.base_url)
             if self.maps.get_schema(ns, url) is not None:
                 continue
+            elif any(s.maps is not self.maps for s in self.maps.namespaces.get(ns, ())):
+                continue  # a namespace of the meta-schema, that is shared and can't be extended
 
             try:
                 with self.maps.protect_status():
